@@ -225,13 +225,21 @@ func Run(id, repo, verif, tier string, seed int, writeBaseline bool) int {
 		}
 	}
 	res := run.Discharge(g.Jobs, env.Timeout, seed, 12)
+	dynamic := []interface{}{} // thorough tier: random evaluation on the real code, never counted as discharged
 	for _, sr := range g.Static {
-		o := &symex.Obligation{Name: sr.Name, Kind: "dataflow", Func: sr.Func, Pos: sr.Pos, Goal: "ssa-dataflow"}
+		kind, backend := sr.Kind, sr.Backend
+		if kind == "" {
+			kind, backend = "dataflow", "ssa-dataflow"
+		}
+		o := &symex.Obligation{Name: sr.Name, Kind: kind, Func: sr.Func, Pos: sr.Pos, Goal: backend}
 		st := smt.Unsat
 		if !sr.OK {
 			st = smt.Sat
 		}
-		res = append(res, run.Result{Obl: o, Status: st, Solver: "ssa-dataflow", Output: sr.Detail})
+		if kind == "dynamic" {
+			dynamic = append(dynamic, map[string]interface{}{"name": sr.Name, "ok": sr.OK, "what": sr.Detail})
+		}
+		res = append(res, run.Result{Obl: o, Status: st, Solver: backend, Output: sr.Detail})
 	}
 
 	// group results by stable name
@@ -396,6 +404,9 @@ func Run(id, repo, verif, tier string, seed int, writeBaseline bool) int {
 				continue // counted in its carved-out form
 			}
 		}
+		if strings.HasPrefix(n, "dynamic/") {
+			continue // a cross-check by execution, not an obligation
+		}
 		nObl++
 		if groups[n].ok {
 			nDis++
@@ -463,6 +474,7 @@ func Run(id, repo, verif, tier string, seed int, writeBaseline bool) int {
 		"known_findings_seen":      knownSeen,
 		"unverified_remainder":     g.Unverified,
 		"bounded_standins":         []string{},
+		"dynamic_crosschecks":      dynamic,
 		"vacuity_canaries":         countCanaries(res),
 		"notes":                    g.Notes,
 	}
